@@ -51,6 +51,9 @@ def run(ctx):
     for cfg in ctx.pick(["MC_N3"], ["MC_N3", "MC_N3first", "MC_N3none", "MC_N3intruder", "MC_N4", "MC_N4two"]):
         r = ctx.tlc(SPEC, "MC_TecdsaDkg", cfg=cfg, coverage=True, label=cfg, timeout=ctx.pick(900, 3000), workers=ctx.pick(4, 8))
         ctx.require_coverage(r, [a for a in ACTIONS if not (cfg in ("MC_N4", "MC_N3intruder") and a == "DoDeliverDup")], cfg)
+    if ctx.thorough:
+        # liveness under fairness: every operating member completes whatever is injected
+        ctx.tlc(SPEC, "MC_TecdsaDkg", cfg="MC_Live", label="MC_Live", timeout=1500)
     # 2. each conjunct of the admission predicate is necessary: TLC must refute the weakened variants
     for cfg in ctx.pick(("MC_HzOperating", "MC_HzSession"), ("MC_HzOperating", "MC_HzSession", "MC_HzMember", "MC_HzSelf")):
         hz = ctx.tlc(SPEC, "MC_TecdsaDkg", cfg=cfg, label=cfg, expect=("violation",))
@@ -61,7 +64,7 @@ def run(ctx):
         if hz.violated != "OperatingNeverFail":
             ctx.broken("MC_HzOperatingKeys: expected OperatingNeverFail to be violated, got %s" % hz.violated)
     # 3. simulated behaviours of larger instances (invariants checked on every state) ...
-    beh = []
+    beh, probes = [], []
     plan = ctx.pick([("Gen_N3", 40), ("Gen_N4", 25)],
                     [("Gen_N3", 300), ("Gen_N3first", 150), ("Gen_N4", 300), ("Gen_N4two", 150), ("Gen_N4none", 100), ("Gen_N5", 200)])
     for cfg, num in plan:
@@ -73,6 +76,10 @@ def run(ctx):
         for b in got:
             b["cfg"] = cfg
         beh += got
+        pt = ctx.read_emitted(g, "probes.ndjson")
+        if len(pt) != 1 or len(pt[0]["probes"]) < 20:
+            ctx.broken("simulation %s did not emit its probe table" % cfg)
+        probes += pt
     feats = [_features(b) for b in beh]
     tot = {k: sum(f[k] for f in feats) for k in feats[0]}
     ctx.note("behaviours: %d; deliveries by kind: %s" % (len(beh), tot))
@@ -93,7 +100,7 @@ def run(ctx):
     if len(chosen) < len(want):
         ctx.broken("could not choose behaviours for the real runs")
     ctx.note("real runs: %s" % [(b["cfg"], b["excluded"], _features(b)) for b in chosen])
-    go = ctx.gotest(PKG, "^TestVerif_C07_(States|Execute)$", ["c07_test.go"], inputs={"behaviours.ndjson": beh, "execute.ndjson": chosen},
+    go = ctx.gotest(PKG, "^TestVerif_C07_(States|Execute)$", ["c07_test.go"], inputs={"behaviours.ndjson": beh, "execute.ndjson": chosen, "probes.ndjson": probes},
                     extra_overlay=OVERLAY, label="c07", env={"VERIF_KEYGEN_BUDGET_S": ctx.pick(900, 1500)}, timeout=ctx.pick(1800, 9000))
     ctx.absorb(go)
     if set(go.reports) != {"states", "execute"} and not ctx.violations:
@@ -102,7 +109,7 @@ def run(ctx):
         h = ctx.extra.get("harness", {})
         sc = h.get("states", {}).get("counters") or {}
         for need in ("deliver_forged", "deliver_dup", "deliver_intruder", "deliver_echo", "deliver_genuine", "admitted", "rejected",
-                     "behaviours_with_early_message", "behaviours_with_duplicate", "party_contexts"):
+                     "behaviours_with_early_message", "behaviours_with_duplicate", "party_contexts", "probes"):
             if not sc.get(need):
                 ctx.broken("state replay never exercised %s" % need)
         if (h.get("execute", {}).get("counters") or {}).get("real_keygens", 0) < len(chosen):
